@@ -300,5 +300,49 @@ PROPS["C15"] = _life(
     dict(cases=1200, nops=(20, 40, 80), audit_every=(1, 3, 5), time_cap=900, watchdog=1600, min_cases=200),
 )
 
+PROPS["C14"] = {
+    "engine": "readonly",
+    "profile": dict(classes=("real", "real", "deep", "bin", "long"), pool=(10, 20, 30),
+                    weights={"add_page": 6, "add_pages": 2, "add_links": 5, "batch": 3, "create": 3, "delete": 1, "addp": 2, "rmp": 1, "mvp": 1, "rule": 2, "rmrule": 1}),
+    "rule": "random states on both back-ends; at 2-3 points of each history the whole read-only battery (every read-only public method "
+            "of Traph incl. iterator forms drained step by step, pagination walks, metrics, enumerations; present, partially present "
+            "and absent LRUs, unknown webentity ids, prefixes not in the index, invalid switch combinations) runs inside the read-only "
+            "window monitor: zero write events at the storage boundary (file proxy / MemoryStorage wrapper), checked after every "
+            "iterator step, and unchanged SHA-256 of both stores around every call. Non-trivial: state with >= 6 pages, >= 1 "
+            "webentity, >= 1 link; distinct = final store bytes.",
+    "nontrivial": lambda f: f["pages"] >= 6 and f["we"] >= 1 and f["links"] >= 1,
+    "deciding_counters": ["C14_windows", "C14_calls_succeeded", "C14_calls_refused_with_library_error", "C14_iterator_steps"],
+    "anchors": ["LRUTrie.follow_lru", "LRUTrie.lru_node", "Traph.get_potential_prefix", "LRUTrieNode.write", "LRUTrie.add_lru"],
+    "quick": dict(cases=64, nops=(15, 30), points=2, time_cap=150, watchdog=400, min_cases=16),
+    "thorough": dict(cases=900, nops=(20, 40, 80), points=3, time_cap=900, watchdog=1600, min_cases=150),
+    "level": "exploration",
+    "assumptions": ["the list of read-only methods is explicit (vt/battery.py); an unclassified public method makes the run inconclusive",
+                    "a foreign (non-library) exception in a query is counted, not judged: the statement covers success and library errors"],
+}
+
+PROPS["C18"] = {
+    "engine": "crashcut",
+    "profile": dict(classes=("real", "long", "real", "long", "bin"), pool=(6, 10, 14),
+                    weights={"add_page": 6, "add_pages": 1, "add_links": 4, "batch": 3, "create": 2, "addp": 1, "rule": 2, "delete": 1, "rmrule": 1}),
+    "rule": "histories of 5-40 requests (pages incl. multi-block stems so that main and tail blocks are separate writes, link batches, "
+            "webentity creation, rule installation) recorded at the file boundary; EVERY cut of the program-ordered write log is "
+            "explored: block granular, plus byte offsets inside each append (quick: first/middle/last byte; thorough: every byte), "
+            "plus file-creation events; for each distinct pair of reconstructed files the folder is reopened (rules re-supplied) and "
+            "must be refused with TraphException or answer the reduced battery without any foreign exception and report only pages "
+            "(crawled only if crawled at the end) and per-direction link weights <= those of the complete history. The "
+            "reconstruction is validated by re-running the history with a crash injected at a random write and comparing the files "
+            "left on disk byte for byte. Non-trivial: history with >= 3 pages; distinct = final file bytes.",
+    "nontrivial": lambda f: f["pages"] >= 3,
+    "deciding_counters": ["C18_cuts", "C18_cuts_opened", "C18_cuts_refused", "C18_cuts_consistent", "C18_reconstructions_validated"],
+    "anchors": ["Traph.__init__", "FileStorage.check_for_corruption", "LRUTrieNode.write", "LinkStore.add_links", "LRUTrie.add_lru"],
+    "quick": dict(cases=48, nops=(5, 10, 16), byte_offsets=3, validate=1, time_cap=200, watchdog=500, min_cases=12),
+    "thorough": dict(cases=400, nops=(5, 12, 20, 40), byte_offsets="all", validate=3, time_cap=1000, watchdog=1700, min_cases=60),
+    "level": "fault_enumeration",
+    "level_text": "Exhaustive enumeration of crash points per recorded history (every logged write, every byte of every append) under the "
+                  "statement's fault model; the histories themselves are sampled.",
+    "assumptions": ["fault model of the statement: program-order prefix of the write log, both files cut at the same point, in-place "
+                    "block rewrites atomic; reordering by the OS page cache is outside the property"],
+}
+
 # properties deliberately not claimed (none so far): id -> reason
 NOT_APPLICABLE = {}
